@@ -445,6 +445,7 @@ func c16(p *core.Program, r *core.Report) {
 		}
 		writes := map[dkey]map[*ssa.BasicBlock]bool{}
 		names := map[dkey]string{}
+		fieldT := map[dkey]types.Type{}
 		rootOf := func(v ssa.Value) ssa.Value {
 			switch x := v.(type) {
 			case *ssa.Parameter, *ssa.Alloc:
@@ -478,6 +479,7 @@ func c16(p *core.Program, r *core.Report) {
 			}
 			writes[k][b] = true
 			names[k] = namedTypeName(pt.Elem()) + "." + st.Field(fa.Field).Name()
+			fieldT[k] = pt.Elem()
 		}
 		for _, b := range fn.Blocks {
 			for _, in := range b.Instrs {
@@ -524,7 +526,10 @@ func c16(p *core.Program, r *core.Report) {
 				if _, isRet := b.Instrs[len(b.Instrs)-1].(*ssa.Return); isRet && bad == nil {
 					bad = b
 				}
-				for _, s := range b.Succs {
+				for i, s := range b.Succs {
+					if nilEdgeOfField(b, i, fieldT[k], k.f) {
+						continue // the source's field is nil on this edge: its zero value is the copy
+					}
 					walk(s)
 				}
 			}
@@ -624,4 +629,36 @@ func writesResultSlot(p *core.Program, in ssa.Instruction) bool {
 		return false
 	}
 	return from(dst, 0)
+}
+
+// nilEdgeOfField: successor i of b is taken only when field f of a struct of type t (any value of it: the source
+// of a copy) is nil - the true edge of `x.f == nil`, the false edge of `x.f != nil`.
+func nilEdgeOfField(b *ssa.BasicBlock, i int, t types.Type, f int) bool {
+	ifi := eng.BlockIf(b)
+	if ifi == nil || t == nil {
+		return false
+	}
+	bo, ok := ifi.Cond.(*ssa.BinOp)
+	if !ok || (bo.Op != token.EQL && bo.Op != token.NEQ) {
+		return false
+	}
+	v := bo.X
+	if eng.IsNilConst(bo.X) {
+		v = bo.Y
+	} else if !eng.IsNilConst(bo.Y) {
+		return false
+	}
+	ld, ok := v.(*ssa.UnOp)
+	if !ok || ld.Op != token.MUL {
+		return false
+	}
+	fa, ok := ld.X.(*ssa.FieldAddr)
+	if !ok || fa.Field != f {
+		return false
+	}
+	pt, ok := fa.X.Type().Underlying().(*types.Pointer)
+	if !ok || !types.Identical(pt.Elem(), t) {
+		return false
+	}
+	return (bo.Op == token.EQL && i == 0) || (bo.Op == token.NEQ && i == 1)
 }
